@@ -198,9 +198,13 @@ def rule_limits(ck):
     data_params = [p for p in params[:2]]
     from ..x_resolve import widen_facts
     _mf = must_facts(fi.cfg)
+    from ..x_paths import dominance_facts
+
     class _Lazy(dict):
         def __missing__(self, k):
-            self[k] = widen_facts(fi, _mf[k])   # named booleans / local aliases of the limits are looked through
+            # named booleans / local aliases of the limits are looked through; guards over lengths/limits also hold by
+            # dominance when the collection is merely passed to a call (filter(None, parts))
+            self[k] = widen_facts(fi, set(_mf[k]) | dominance_facts(fi, fi.cfg.nodes[k]))
             return self[k]
 
     facts = _Lazy()
@@ -258,7 +262,10 @@ def rule_limits(ck):
                 break
         if loop is None:
             raise AnalysisError("C30.limits: loop over the parts not found (unknown idiom)")
-        parts = q.dotted(loop.iter)
+        it_ = loop.iter
+        if isinstance(it_, ast.Call) and q.dotted(it_.func) == "filter" and len(it_.args) == 2:
+            it_ = it_.args[1]   # a filtered view iterates (a subset of) the same collection
+        parts = q.dotted(it_)
         if parts is None:
             raise AnalysisError("C30.limits: parts iterable is not a variable")
         # the quantity that is counted must be the real number of pieces: an unbounded split of the body
@@ -272,7 +279,7 @@ def rule_limits(ck):
         ok2 = any(_cmp_bound(t, pol, is_cnt, limit("max_parts")) for t, pol in facts[nd.id] if not t.startswith("@"))
         n += 1
         ck.ob("C30.limits", fi, c, ok2, "the number of parts (len(%s)) is checked against %s.max_parts before any part is parsed" % (parts, cfgp))
-        for hn in fi.cfg.nodes_for(loop.iter):
+        for hn in fi.cfg.nodes_for(it_):
             ok3 = any(_cmp_bound(t, pol, is_cnt, limit("max_parts")) for t, pol in facts[hn.id] if not t.startswith("@"))
             n += 1
             ck.ob("C30.limits", fi, loop.iter, ok3, "the part-count check dominates the loop over the parts")
@@ -301,12 +308,18 @@ def rule_limits(ck):
     pcfg = [x for x in pba.params() if "config" in x][0]
     for c in [c for c in q.calls(pba.node) if q.call_attr(c) == PMF]:
         kw = q.kwarg(c, cfgp)
+        if kw is None:
+            from ..x_resolve import arg_map as _am
+            mp_ = _am(fi, c)
+            kw = mp_.get(cfgp) if mp_ else None
         n += 1
         ck.ob("C30.config", pba, c, kw is not None and q.dotted(kw) == "%s.multipart" % pcfg, "parse_body_arguments hands %s.multipart to the multipart parser (configured limits are the ones enforced)" % pcfg)
     # set_parse_body_config installs the global
-    sp = ck.func(HU, "set_parse_body_config")
+    sp = ck.use(ck.repo.func(HU, "set_parse_body_config"))   # the raw function: alias normalisation would hide a dead local store
     glob = [g for g in q.walk_body(sp.node) if isinstance(g, ast.Global) and "_DEFAULT_PARSE_BODY_CONFIG" in g.names]
     asg = [a for a in q.stores_to(sp.node, "_DEFAULT_PARSE_BODY_CONFIG") if isinstance(a, ast.Assign) and q.dotted(a.value) in sp.params()]
+    if not asg:
+        raise AnalysisError("set_parse_body_config: no assignment of its argument to _DEFAULT_PARSE_BODY_CONFIG found (unknown idiom)")
     n += 1
     ck.ob("C30.config", sp, sp.node, bool(glob) and bool(asg), "set_parse_body_config rebinds the module-level default (global declaration + assignment of its argument)", construct="global _DEFAULT_PARSE_BODY_CONFIG = <arg>")
     return n
@@ -347,6 +360,10 @@ def rule_content_encoding(ck):
             helper_raises += 1
             ck.use(cfi)
     st = path_states(fi, [h, "%s is None" % h, "'Content-Encoding' in %s" % h], {"rejected": lambda n2: n2.id in rejecting}, follow_exc=False)
+    # tests that mention the header in some other spelling cannot be judged
+    for t_ in fi.cfg.stmt_nodes(lambda nd: nd.kind == "test"):
+        if "Content-Encoding" in q.literal_strs(t_.ast) and q.unparse(t_.ast) not in ("'Content-Encoding' in %s" % h, "'Content-Encoding' not in %s" % h):
+            raise AnalysisError("C30.content-encoding: the Content-Encoding test '%s' is not of a recognised form" % q.unparse(t_.ast))
     n = 0
     for name in ("parse_qs_bytes", PMF):
         for nd, c in call_sites(fi, name, "." + name):
@@ -505,6 +522,7 @@ def _hoist_out_of_try(root):
 
 
 MUTANTS = [
+    ("seeded C30-adv4: multipart handler narrowed to (HTTPInputError, ValueError, LookupError): TypeError from decode_params escapes", _h(PBA, lambda root: _narrow_to(root, 1, "(HTTPInputError, ValueError, LookupError)")), "C30.only-input-error"),
     ("seeded C30-adv3: parts split with maxsplit = config.max_parts - 1 (the count can never exceed the limit)", _h(PMF, replace_expr(lambda n: isinstance(n, ast.Call) and q.call_attr(n) == "split" and "boundary" in _src(n), lambda n: ast.Call(func=n.func, args=n.args + [parse_expr("config.max_parts - 1")], keywords=[]))), ("C30.limits", "C30.byte-exact")),
     ("limits: parts split with a hard-coded maxsplit=1000", _h(PMF, replace_expr(lambda n: isinstance(n, ast.Call) and q.call_attr(n) == "split" and "boundary" in _src(n), lambda n: ast.Call(func=n.func, args=n.args, keywords=[ast.keyword(arg="maxsplit", value=ast.Constant(value=1000))]))), ("C30.limits", "C30.byte-exact")),
     ("seeded C30-adv1: value = part[eoh + 4:].rstrip(b'\\r\\n') (trailing CR/LF of the content lost)", _h(PMF, replace_expr(lambda n: isinstance(n, ast.Subscript) and isinstance(n.slice, ast.Slice) and "eoh + 4" in _src(n), lambda n: parse_expr("part[eoh + 4:].rstrip(b'\\r\\n')"))), "C30.byte-exact"),
@@ -548,4 +566,15 @@ def _drop_ce(root, which):
                         del body[i]
                         return True
                     k += 1
+    return False
+
+
+def _narrow_to(root, which, to):
+    k = 0
+    for node in ast.walk(root):
+        if isinstance(node, ast.ExceptHandler) and q.dotted(node.type) == "Exception":
+            if k == which:
+                node.type = parse_expr(to)
+                return True
+            k += 1
     return False
